@@ -88,6 +88,12 @@
 #define D_WF_UNLABELLED(g)                                                    \
   (!(g)->edgeLabels.s.hasPQ && !(g)->edgeLabels.s.hasQP &&                        \
    (g)->edgeLabels.s.restCount == 0)
+#define D_WF_LABELLED_OLD(g)                                                  \
+  (OLD((g)->edgeLabels.s.hasPQ) == (D_CNT_PQ_(g, OLD) > 0) &&                 \
+   OLD((g)->edgeLabels.s.hasQP) == (G_P != G_Q && D_CNT_QP_(g, OLD) > 0))
+#define D_WF_LABELS_VLabel_OLD(g) D_WF_LABELLED_OLD(g)
+#define D_WF_LABELS_uint_OLD(g) D_WF_LABELLED_OLD(g)
+#define D_WF_LABELS_real_OLD(g) D_WF_LABELLED_OLD(g)
 #define D_WF_LABELS_VLabel(g) D_WF_LABELLED(g)
 #define D_WF_LABELS_uint(g) D_WF_LABELLED(g)
 #define D_WF_LABELS_real(g) D_WF_LABELLED(g)
@@ -116,6 +122,54 @@
       *(g)->edgeLabels.valPQ, *(g)->edgeLabels.valQP, bg_exc, BG_SCRATCH_(L)
 #define D_FRAME_CONST(L) bg_exc, BG_SCRATCH_(L)
 
+#define BG_LIFT_ENF(c) (c)
+#define BG_LIFT_REP(c) 1
+
+/* ================= undirected graph LUG_<L> (base subobject is an LDG_<L>) ================= */
+#define U_B(g) (&(g)->base)
+#define U_IS_PAIR(a, b) (((a) == G_P && (b) == G_Q) || ((a) == G_Q && (b) == G_P))
+/* copies of the unordered pair {G_P,G_Q} as stored under its canonical orientation (min,max) */
+#define U_CNT_(g, F) (G_P <= G_Q ? D_CNT_PQ_(U_B(g), F) : D_CNT_QP_(U_B(g), F))
+#define U_CNT(g) U_CNT_(g, ID)
+#define U_WF_SAFE(g) D_WF_SAFE(U_B(g))
+/* each non-loop edge is two half-edges; the cached count tracks the upper halves */
+#define U_WF_COUNT(g) (U_B(g)->edgeNumber == U_B(g)->adjacencyList.r.totalUp)
+#define U_WF_SYM_(g, F) (G_P == G_Q || D_CNT_PQ_(U_B(g), F) == D_CNT_QP_(U_B(g), F))
+#define U_WF_SYM(g) U_WF_SYM_(g, ID)
+/* the label of {i,j} lives under (min,max) */
+#define U_HAS_(g, F) (G_P <= G_Q ? F(U_B(g)->edgeLabels.s.hasPQ) : F(U_B(g)->edgeLabels.s.hasQP))
+#define U_HAS(g) U_HAS_(g, ID)
+#define U_VAL(g) (*(G_P <= G_Q ? U_B(g)->edgeLabels.valPQ : U_B(g)->edgeLabels.valQP))
+#define U_WF_LABELLED(g)                                                      \
+  (G_P <= G_Q ? (U_B(g)->edgeLabels.s.hasPQ == (D_CNT_PQ(U_B(g)) > 0) && !U_B(g)->edgeLabels.s.hasQP) \
+              : (U_B(g)->edgeLabels.s.hasQP == (D_CNT_QP(U_B(g)) > 0) && !U_B(g)->edgeLabels.s.hasPQ))
+#define U_WF_LABELS_VLabel(g) U_WF_LABELLED(g)
+#define U_WF_LABELS_uint(g) U_WF_LABELLED(g)
+#define U_WF_LABELS_real(g) U_WF_LABELLED(g)
+#define U_WF_LABELS_NoLabel(g) D_WF_UNLABELLED(U_B(g))
+#define U_SIMPLE_(g, F) D_SIMPLE_(U_B(g), F)
+#define U_PRE(g)                                                              \
+  (__CPROVER_is_fresh(g, sizeof(*(g))) && BG_ADJ_FRESH(U_B(g)->adjacencyList) && \
+   BG_MAP_FRESH(U_B(g)->edgeLabels) && U_WF_SAFE(g) && bg_exc == BG_EXC_NONE && \
+   BG_SCRATCH_CLEAN)
+#define U_FRAME(g, L) D_FRAME(U_B(g), L)
+#define U_SAME_VLabel(g) D_SAME_VLabel(U_B(g))
+#define U_SAME_NoLabel(g) D_SAME_NoLabel(U_B(g))
+#define U_SAME_uint(g) D_SAME_uint(U_B(g))
+#define U_SAME_real(g) D_SAME_real(U_B(g))
+/* self-loop copies at G_P / G_Q */
+#define U_LOOPS_P_(g, F) F(U_B(g)->adjacencyList.rowP->c.nP)
+#define U_LOOPS_Q_(g, F) (G_P == G_Q ? F(U_B(g)->adjacencyList.rowP->c.nP) : F(U_B(g)->adjacencyList.rowQ->c.nQ))
+
+#define U_TOUCHES(v) (G_P == (v) || G_Q == (v))
+/* fresh pointer parameters of an outlined loop over a graph */
+#define U_LOOP_FRESH(g)                                                       \
+  (__CPROVER_is_fresh(g, sizeof(*(g))) && BG_ADJ_FRESH(U_B(g)->adjacencyList) && \
+   BG_MAP_FRESH(U_B(g)->edgeLabels))
+#define U_LOOP_FRAME(g, L)                                                    \
+  U_B(g)->edgeNumber, U_B(g)->adjacencyList.r, U_B(g)->edgeLabels.s,          \
+      *U_B(g)->adjacencyList.rowP, *U_B(g)->adjacencyList.rowQ, bg_exc, BG_SCRATCH_(L)
+
 /* the row object a vertex index designates: observed row or the scratch cell */
 #define D_ROW(g, i)                                                           \
   ((bg_size)(i) == G_P   ? (g)->adjacencyList.rowP                            \
@@ -123,15 +177,21 @@
                          : &bg_scratch_row.row)
 /* the scratch cell holds row i of g, obtained through non-const access */
 #define D_ROW_LOADED(g, i)                                                    \
-  (((bg_size)(i) == G_P || (bg_size)(i) == G_Q)                               \
-       ? !bg_scratch_row.valid                                                \
-       : (bg_scratch_row.valid && bg_scratch_row.from == &(g)->adjacencyList && \
-          bg_scratch_row.owner == &(g)->adjacencyList &&                      \
-          bg_scratch_row.row.idx == (bg_size)(i) &&                           \
-          bg_scratch_row.row.bound <= (g)->size &&                            \
-          BG_CNT_AX(bg_scratch_row.row.c, (bg_size)(i)) &&                    \
-          bg_scratch_row.row.c.len <= (g)->adjacencyList.r.restLen &&         \
-          bg_scratch_row.row.c.up <= (g)->adjacencyList.r.restUp))
+  (D_SCRATCH_BENIGN(g) &&                                                     \
+   (((bg_size)(i) == G_P || (bg_size)(i) == G_Q) ||                           \
+    (bg_scratch_row.valid && bg_scratch_row.owner == &(g)->adjacencyList &&   \
+     bg_scratch_row.row.idx == (bg_size)(i))))
+/* the scratch cell is empty or holds a well-formed unobserved row of g */
+#define D_SCRATCH_BENIGN(g)                                                   \
+  (!bg_scratch_row.valid ||                                                   \
+   (bg_scratch_row.from == &(g)->adjacencyList &&                             \
+    (bg_scratch_row.owner == 0 || bg_scratch_row.owner == &(g)->adjacencyList) && \
+    bg_scratch_row.row.idx != (bg_size)G_P && bg_scratch_row.row.idx != (bg_size)G_Q && \
+    bg_scratch_row.row.idx < (g)->adjacencyList.n &&                          \
+    bg_scratch_row.row.bound <= (g)->size &&                                  \
+    BG_LIST_WF(bg_scratch_row.row) &&                                         \
+    bg_scratch_row.row.c.len <= (g)->adjacencyList.r.restLen &&               \
+    bg_scratch_row.row.c.up <= (g)->adjacencyList.r.restUp))
 /* WF without the clean-cache clause */
 #define D_WF_LOOP(g) (D_WF_SAFE(g) && bg_cur_adj == &(g)->adjacencyList)
 /* cursor j is a valid position of row r */
